@@ -370,6 +370,12 @@ func (i *Interface) PutNew(r record.Record) (err error) {
 // - Caching
 // Use with care.
 func (i *Interface) PutMany(dbName string) (put func(record.Record) error) {
+	return i.putMany(dbName, true)
+}
+
+// putMany is PutMany; records that already went through the interface (delayed
+// writes) are stored as they are, without applying the interface options again.
+func (i *Interface) putMany(dbName string, applyOptions bool) (put func(record.Record) error) {
 	interfaceBatch := make(chan record.Record, 100)
 
 	// permission check
@@ -422,7 +428,9 @@ func (i *Interface) PutMany(dbName string) (put func(record.Record) error) {
 					return
 				}
 				// apply options
-				i.options.Apply(r)
+				if applyOptions {
+					i.options.Apply(r)
+				}
 				// pass along
 				dbBatch <- r
 			case <-time.After(1 * time.Second):
